@@ -184,6 +184,18 @@ def emptyBinding (r : Option (Option String)) : Bool :=
 def hasPctLiteral (p : Except Nat Pat) : Bool :=
   match p with | .ok p => p.lits.any (fun l => !pctNormal l) | .error _ => false
 
+def kvCount (kv : String) : Nat := if kv == "." then 0 else (kv.splitOn ",").length
+
+/-- A match must bind every parameter of the pattern: `some reason` when the number of bindings differs from the
+number of parameters (classified: do two names coincide after percent-decoding?). -/
+def countProblem (p : String) (r : Option (Option String)) : Option String :=
+  match r, patArg p with
+  | some (some kv), some (.ok pat) =>
+    if kvCount kv == pat.params.length then none
+    else if !nodupB (pat.params.map decodeLossy) then some "binding-lost-names-collide-decoded"
+    else some "binding-count-mismatch"
+  | _, _ => none
+
 def splitBar (ws : List String) : List (List String) :=
   ws.foldr (fun w acc => if w == "|" then [] :: acc else match acc with | c :: m => (w :: c) :: m | [] => [[w]]) [[]]
 
@@ -195,12 +207,13 @@ def Mon.step (m : Mon) (line : String) (out : String) : Mon × Option String :=
   | ["parse", _] => (m, if ow.head? == some "ok" || ow.head? == some "err" then none else some "unexpected-result")
   | ["uri", _] => (m, none)
   | ["apply", _, _] => (m, none)
-  | ["un", _, _] | ["unr", _, _] =>
+  | ["un", p, _] | ["unr", p, _] =>
     if out == "badpat" || out == "baduri" then (m, none) else
     match matchOf ow with
     | none => (m, some "unexpected-result")
     | some r =>
       if emptyBinding (some r) then (m, some "param-bound-empty")
+      else if (countProblem p (some r)).isSome then (m, countProblem p (some r))
       else match repeated with
         | some o => (m, if o == out then none else some "nondeterministic-match")
         | none => (remember, none)
@@ -217,6 +230,8 @@ def Mon.step (m : Mon) (line : String) (out : String) : Mon × Option String :=
       match matchOf r1, matchOf r2 with
       | some m1, some m2 =>
         if emptyBinding (some m1) || emptyBinding (some m2) then (m, some "param-bound-empty")
+        else if (countProblem p (some m1)).isSome then (m, countProblem p (some m1))
+        else if (countProblem q (some m2)).isSome then (m, countProblem q (some m2))
         else if m1.isSome && m2.isSome && a == "0" then
           -- one URI matched by both patterns but not reported: classify the witness
           let pct := match patArg p, patArg q with
@@ -233,6 +248,7 @@ def Mon.step (m : Mon) (line : String) (out : String) : Mon × Option String :=
       | "ok" :: _ :: rest => matchOf rest
       | _ => none
     if emptyBinding res then (m, some "param-bound-empty") else
+    if (countProblem p res).isSome then (m, countProblem p res) else
     match patArg p, parseKV kv with
     | some (.ok pat), some mp =>
       if pat.wf && mapOk pat mp then
